@@ -6,8 +6,9 @@ R-C22.2  GuppyStructObject.__setattr__ stores a field only when not frozen (rais
          unpack_guppy_object, interpreted on a nested tuple/struct/array type with frozen False and True, yields frozenlists
          and frozen struct objects at every level iff frozen (c22_unpack.py; syntactic threading only as fallback);
          trace_function freezes exactly the non-borrowed inputs.
-R-C22.3  GuppyObject._use_wire raises iff already used and not copyable, records the use
-         otherwise; nobody else reads `_wire` or resets `_used`.
+R-C22.3  GuppyObject._use_wire interpreted on {used, copyable, droppable}^3: GuppyComptimeError iff already used and not copyable
+         (nothing changed then); otherwise the object's wire is returned, the use recorded and a non-droppable value leaves the
+         leak registry (c22_usewire.py); nobody else reads `_wire` or resets `_used`.
 R-C22.5  the leak registry refers to its entries strongly (c22_registry.py).
 R-C22.4  objects of non-droppable type are registered on creation; `trace_function`, interpreted as a whole with recorder
          tokens, raises a GuppyError and never sets the outputs when the traced function leaves something in the leak
@@ -252,48 +253,51 @@ def run(ctx: Ctx) -> None:
     if uw is None:
         raise AnalysisError("GuppyObject._use_wire vanished")
     ctx.saw("functions", uw.qualname)
-    known_uw = booltab.suffix_atomizer({"._used": "used", ".copyable": "copyable"})
-    # (a) every `return self._wire` is guarded by NOT(used and not copyable); the raising branch exists
-    rets = [r for r in walk_no_nested(uw.node) if isinstance(r, ast.Return)]
-    ctx.floor("R-C22.3", "returns in _use_wire", len(rets), 1)
-    for i, r in enumerate(rets):
-        gs = lexical_guards(uw.node, r) or []
-        try:
-            ok, bad = guards_imply(gs, known_uw, lambda env: "used" in env and "copyable" in env and not (env["used"] and not env["copyable"]))
-        except Exception as e:  # noqa: BLE001
-            ctx.undecided("R-C22.3", f"{uw.qualname}#return[{i}]", uw.where, str(e))
-            continue
-        ctx.check(ok, "R-C22.3", f"{uw.qualname}#no-wire-when-used-and-noncopyable[{i}]", f"{uw.module.rel}:{r.lineno}",
-                  {"guards": [(ast.unparse(e)[:60], p) for e, p in gs], "reachable_with": bad},
-                  "a non-copyable comptime value that was already used can be used again (its wire is handed out twice)")
-    raising = False
-    over_strict = None
-    for n in walk_no_nested(uw.node):
-        if isinstance(n, ast.If):
+    from . import c22_usewire
+    if not c22_usewire.run(ctx):
+        # fallback: guards of the returns, the raising branch, the recorded use and the registry pop by their shape
+        known_uw = booltab.suffix_atomizer({"._used": "used", ".copyable": "copyable"})
+        # (a) every `return self._wire` is guarded by NOT(used and not copyable); the raising branch exists
+        rets = [r for r in walk_no_nested(uw.node) if isinstance(r, ast.Return)]
+        ctx.floor("R-C22.3", "returns in _use_wire", len(rets), 1)
+        for i, r in enumerate(rets):
+            gs = lexical_guards(uw.node, r) or []
             try:
-                eq, bad = booltab.equivalent(n.test, ["used", "copyable"], known_uw, lambda used, copyable: used and not copyable)
-            except booltab.Unsupported:
+                ok, bad = guards_imply(gs, known_uw, lambda env: "used" in env and "copyable" in env and not (env["used"] and not env["copyable"]))
+            except Exception as e:  # noqa: BLE001
+                ctx.undecided("R-C22.3", f"{uw.qualname}#return[{i}]", uw.where, str(e))
                 continue
-            if must_raise(n.body):
-                raising = True
-                over_strict = None if eq else bad
-    ctx.check(raising and over_strict is None, "R-C22.3", f"{uw.qualname}#raise-iff-used-and-noncopyable", uw.where,
-              {"raising_branch_found": raising, "differs_from_spec_at": over_strict},
-              "_use_wire must raise exactly when the value was used and is not copyable (copyable values may be reused)")
-    # (b) the use is recorded on every path that returns the wire
-    g = CFG(uw.node)
-    def sets_used(n):  # noqa: E306
-        return n.ast is not None and isinstance(n.ast, (ast.Assign, ast.AnnAssign)) and any(
-            isinstance(t, ast.Attribute) and t.attr == "_used" for t in (n.ast.targets if isinstance(n.ast, ast.Assign) else [n.ast.target]))
-    ctx.check(g.every_path_to_exit_passes(sets_used), "R-C22.3", f"{uw.qualname}#records-use", uw.where,
-              {"rule": "every normal path assigns self._used"},
-              "a use of a non-copyable comptime value is not recorded, so a second use is not detected")
-    # (c) unused_undroppable bookkeeping: popped when a non-droppable value is used
-    pops = [c for c in calls_in(uw.node) if isinstance(c.func, ast.Attribute) and c.func.attr in ("pop", "__delitem__")
-            and "unused_undroppable_objs" in ast.unparse(c.func.value)]
-    dels = [d for d in walk_no_nested(uw.node) if isinstance(d, ast.Delete) and "unused_undroppable_objs" in ast.unparse(d)]
-    ctx.check(bool(pops or dels), "R-C22.3", f"{uw.qualname}#clears-leak-entry", uw.where, {"pops": len(pops) + len(dels)},
-              "using a non-droppable value does not clear its leak-tracking entry: every qubit would be reported as leaked")
+            ctx.check(ok, "R-C22.3", f"{uw.qualname}#no-wire-when-used-and-noncopyable[{i}]", f"{uw.module.rel}:{r.lineno}",
+                      {"guards": [(ast.unparse(e)[:60], p) for e, p in gs], "reachable_with": bad},
+                      "a non-copyable comptime value that was already used can be used again (its wire is handed out twice)")
+        raising = False
+        over_strict = None
+        for n in walk_no_nested(uw.node):
+            if isinstance(n, ast.If):
+                try:
+                    eq, bad = booltab.equivalent(n.test, ["used", "copyable"], known_uw, lambda used, copyable: used and not copyable)
+                except booltab.Unsupported:
+                    continue
+                if must_raise(n.body):
+                    raising = True
+                    over_strict = None if eq else bad
+        ctx.check(raising and over_strict is None, "R-C22.3", f"{uw.qualname}#raise-iff-used-and-noncopyable", uw.where,
+                  {"raising_branch_found": raising, "differs_from_spec_at": over_strict},
+                  "_use_wire must raise exactly when the value was used and is not copyable (copyable values may be reused)")
+        # (b) the use is recorded on every path that returns the wire
+        g = CFG(uw.node)
+        def sets_used(n):  # noqa: E306
+            return n.ast is not None and isinstance(n.ast, (ast.Assign, ast.AnnAssign)) and any(
+                isinstance(t, ast.Attribute) and t.attr == "_used" for t in (n.ast.targets if isinstance(n.ast, ast.Assign) else [n.ast.target]))
+        ctx.check(g.every_path_to_exit_passes(sets_used), "R-C22.3", f"{uw.qualname}#records-use", uw.where,
+                  {"rule": "every normal path assigns self._used"},
+                  "a use of a non-copyable comptime value is not recorded, so a second use is not detected")
+        # (c) unused_undroppable bookkeeping: popped when a non-droppable value is used
+        pops = [c for c in calls_in(uw.node) if isinstance(c.func, ast.Attribute) and c.func.attr in ("pop", "__delitem__")
+                and "unused_undroppable_objs" in ast.unparse(c.func.value)]
+        dels = [d for d in walk_no_nested(uw.node) if isinstance(d, ast.Delete) and "unused_undroppable_objs" in ast.unparse(d)]
+        ctx.check(bool(pops or dels), "R-C22.3", f"{uw.qualname}#clears-leak-entry", uw.where, {"pops": len(pops) + len(dels)},
+                  "using a non-droppable value does not clear its leak-tracking entry: every qubit would be reported as leaked")
     # (d) who may read _wire / write _used
     readers = []
     writers_used = []
